@@ -805,6 +805,182 @@ SUITES = {
     'apply_matcher': suite_apply_matcher,
 }
 
+
+
+# ------------------------------------------------------------------ converter / profiler / sessions
+from py_stringsimjoin.utils.converter import series_to_str, dataframe_column_to_str    # noqa: E402
+from py_stringsimjoin.profiler.profiler import profile_table_for_join                  # noqa: E402
+
+
+def gen_column(rng, stats):
+    kind = rng.choice(['int', 'float_int', 'float', 'object', 'str', 'float_allnan', 'empty_float', 'empty_object', 'bool'])
+    n = rng.randint(1, 8)
+    nan_p = rng.choice([0.0, 0.3, 0.7])
+    if kind == 'int':
+        s = pd.Series([rng.randint(-50, 10 ** rng.randint(1, 12)) for _ in range(n)], dtype='int64')
+    elif kind == 'float_int':
+        s = pd.Series([np.nan if rng.random() < nan_p else float(rng.randint(-5, 10 ** rng.randint(1, 9))) for _ in range(n)], dtype='float64')
+    elif kind == 'float':
+        s = pd.Series([np.nan if rng.random() < nan_p else rng.choice([1.5, 2.0, 0.1, 1e-7, 123456.789, 1e16, -3.25, 7.0]) for _ in range(n)],
+                      dtype='float64')
+    elif kind == 'object':
+        s = pd.Series([None if rng.random() < nan_p else rng.choice(['a', 'b c', '', '12']) for _ in range(n)], dtype=object)
+    elif kind == 'str':
+        s = pd.Series([None if rng.random() < nan_p else rng.choice(['a', 'b c', '', '12']) for _ in range(n)], dtype='str')
+    elif kind == 'float_allnan':
+        s = pd.Series([np.nan] * n, dtype='float64')
+    elif kind == 'empty_float':
+        s = pd.Series([], dtype='float64')
+    elif kind == 'empty_object':
+        s = pd.Series([], dtype=object)
+    else:
+        s = pd.Series([rng.random() < 0.5 for _ in range(n)], dtype=bool)
+    stats.hit('converter.kind.' + kind)
+    return s, kind
+
+
+def col_json(s):
+    return {'dtype': dtype_tag(s.dtype), 'values': [cell(v) for v in s]}
+
+
+def suite_converter(rng, n, stats):
+    cases = []
+    for _ in range(n):
+        s, kind = gen_column(rng, stats)
+        before = col_json(s)
+        reprs = {f2hex(v): str(v) for v in s if isinstance(v, float) and not math.isnan(v)}
+        mode = rng.choice(['series', 'frame'])
+        inplace = rng.random() < 0.4
+        return_col = rng.random() < 0.35
+        req = {'op': 'converter', 'mode': mode, 'dtype': before['dtype'], 'values': before['values'], 'repr': reprs,
+               'inplace': inplace, 'return_col': return_col}
+        try:
+            if mode == 'series':
+                res = series_to_str(s, inplace)
+                holder = s
+            else:
+                df = pd.DataFrame({'k': range(len(s)), 'c': s})
+                res = dataframe_column_to_str(df, 'c', inplace, return_col)
+                holder = df['c']
+            if res is True:
+                exp = {'ok': {'ret': 'True', 'after': col_json(holder)}}
+            elif isinstance(res, pd.Series):
+                exp = {'ok': {'ret': 'col', 'col': col_json(res)}}
+                if col_json(holder) != before:
+                    exp['input_mutated'] = True
+            elif isinstance(res, pd.DataFrame):
+                exp = {'ok': {'ret': 'frame', 'col': col_json(res['c'])}}
+                if col_json(holder) != before or list(res.columns) != ['k', 'c'] or list(res['k']) != list(range(len(s))):
+                    exp['input_mutated'] = True
+            else:
+                exp = {'ok': {'ret': repr(res)}}
+        except Exception as e:   # noqa: BLE001
+            exp = {'err': err_name(e)}
+        stats.hit('converter.mode.%s.%s' % (mode, 'inplace' if inplace else ('return_col' if return_col else 'copy')))
+        cases.append((req, exp, 'converter:%s:%s:%s' % (mode, kind, inplace)))
+    return cases
+
+
+def gen_profile_frame(rng, stats, big=False):
+    n = rng.randint(1, 12) if not big else rng.choice([20000, 20001, 25000, 40003])
+    cols = {}
+    for i in range(rng.randint(1, 4)):
+        kind = rng.choice(['key', 'dups', 'missing', 'onedup', 'onemissing', 'float', 'mixednone'])
+        if kind == 'key':
+            v = list(range(n))
+        elif kind == 'dups':
+            v = [rng.randint(0, max(1, n // 2)) for _ in range(n)]
+        elif kind == 'missing':
+            v = [None if rng.random() < 0.3 else 's%d' % rng.randint(0, n) for _ in range(n)]
+        elif kind == 'onedup':
+            v = list(range(n))
+            if n > 1:
+                v[rng.randrange(1, n)] = v[0]
+        elif kind == 'onemissing':
+            v = ['s%d' % j for j in range(n)]
+            v[rng.randrange(n)] = None
+        elif kind == 'float':
+            v = [np.nan if rng.random() < 0.2 else rng.choice([1.5, 2.5, 3.25, 4.0]) for _ in range(n)]
+        else:
+            v = [rng.choice([None, np.nan, 'a', 'b']) for _ in range(n)]
+        stats.hit('profiler.col.' + kind)
+        cols['c%d' % i] = pd.Series(v, dtype=object if kind in ('missing', 'onemissing', 'mixednone') else None)
+    return pd.DataFrame(cols)
+
+
+def suite_profiler(rng, n, stats, big_every=25):
+    cases = []
+    for k in range(n):
+        df = gen_profile_frame(rng, stats, big=(k % big_every == big_every - 1))
+        attrs = None if rng.random() < 0.5 else rng.sample(list(df.columns), rng.randint(1, len(df.columns)))
+        use = list(df.columns) if attrs is None else attrs
+        try:
+            out = profile_table_for_join(df, attrs)
+            exp = {'ok': [[str(out.loc[a, 'Unique values']), str(out.loc[a, 'Missing values']), str(out.loc[a, 'Comments'])] for a in use]}
+            if list(out.index) != use or list(out.columns) != ['Unique values', 'Missing values', 'Comments']:
+                exp['shape'] = [list(map(str, out.index)), list(map(str, out.columns))]
+        except Exception as e:   # noqa: BLE001
+            exp = {'err': err_name(e)}
+        req = {'op': 'profiler', 'cols': [[cell(v) for v in df[a]] for a in use]}
+        stats.hit('profiler.rows.%s' % ('big' if len(df) >= 20000 else 'small'))
+        cases.append((req, exp, None))
+    return cases
+
+
+def suite_session(rng, n, stats):
+    """histories of join calls sharing tokenizer objects and frames"""
+    cases = []
+    for _ in range(n):
+        toks = [gen_tokenizer(rng, qgram=True), gen_tokenizer(rng, qgram=rng.random() < 0.3)]
+        flags0 = [bool(t.obj.get_return_set()) for t in toks]
+        ts_gen = toks[0]
+        L, R, lk, rk, la, ra = gen_join_frames(rng, ts_gen, stats)
+        calls, outs = [], []
+        for _ in range(rng.randint(2, 7)):
+            tid = rng.randrange(2)
+            ts = toks[tid]
+            which = rng.choice(list(JOINS) if ts.kind == 'qgram' else [w for w in JOINS if w != 'edit_distance'])
+            if which == 'edit_distance':
+                t = rng.choice([0, 1, 2, -1])
+                op = rng.choice(['<=', '<', '=', '>='])
+            elif which == 'overlap':
+                t = rng.choice([1, 2, 0])
+                op = rng.choice(['>=', '>', '=', '<'])
+            else:
+                t = rng.choice([0.3, 0.5, 0.8, 1.0, 0, 1.5])
+                op = rng.choice(['>=', '>', '=', '<='])
+            kw = {'comp_op': op, 'allow_missing': rng.random() < 0.3, 'out_sim_score': rng.random() < 0.7, 'n_jobs': rng.choice([1, 2])}
+            LL = L if rng.random() > 0.05 else None
+            req = join_request(which, ts, LL, R, lk, rk, la, ra, t, kw)
+            req['tok_id'] = tid
+            req.pop('op')
+            o = real_join(which, ts, LL, R, lk, rk, la, ra, t, kw)
+            calls.append(req)
+            outs.append(o)
+            stats.hit('session.call.' + which)
+            stats.hit('session.outcome.' + ('ok' if 'ok' in o else o['err']))
+        exp = {'ok': {'flags': [bool(t.obj.get_return_set()) for t in toks], 'outcomes': outs}}
+        cases.append(({'op': 'session', 'flags': flags0, 'calls': calls, 'cpu': common.CPU}, exp, 'session'))
+    return cases
+
+
+def norm_session(m, r):
+    for resp in (m, r):
+        if 'ok' in resp:
+            outs = resp['ok']['outcomes']
+            for i, o in enumerate(outs):
+                o = norm_scores(o)
+                if 'ok' in o:
+                    o = dict(o)
+                    o['ok'] = sort_rows(o['ok'])
+                outs[i] = o
+    return m, r
+
+
+NORMALIZERS['session'] = norm_session
+SUITES.update({'converter': suite_converter, 'profiler': suite_profiler, 'session': suite_session})
+
+
 if __name__ == '__main__':
     import sys
     import time
